@@ -37,7 +37,7 @@ LEVEL_TEXT = ("Lean 4 theorems for all values (any number / mix / order of halve
               "with p (one hop, chmux::forward chains with preserved ids, re-serialization chains with relays), no request serves two "
               "halves; repaired interlock admits one local-remote connection; every decided connect request has resolved both ends "
               "(connected / error / never existed) at quiescence. Tied to the code by label transfers through every half of real values "
-              "over 1-3 real connections. Findings FB2 (interlock marks the wrong half) and FB3 are reproduced by the harness.")
+              "over 1-3 real connections. Defect FB2 (interlock marked the wrong half; repaired in /repo 65d6d78, `interlock_pinned_ineffective` is the theorem about the pre-repair variant) and finding FB3 are reproduced by the harness.")
 LEVEL_NOTE = ("Trusted: Lean kernel + {propext, Quot.sound}; hand-written M_wiring; C10/C07 for the port table. The correspondence "
               "observes connectivity, not the ids on the wire.")
 TECHNIQUE = "Lean 4 proofs over a functional wiring model + label-transfer check of real values over real connections"
